@@ -18,6 +18,7 @@ func strConst(lean, rel, name string) {
 
 func facts() {
 	colorFacts()
+	statsFacts()
 	// ---- protocol constants
 	const proto = "internal/protocol/protocol.go"
 	if v, n := findConst(proto, "MessageDelimiter"); v != nil {
@@ -200,4 +201,40 @@ func colorFacts() {
 	}
 	emit("/-- internal/config/client.go newDefaultClientConfig: the default colour table -/")
 	emit("def termColors : List (String × List UInt8) := [\n  %s]", strings.Join(rows, ",\n  "))
+}
+
+// stats ring (C04): the array length of `matched`/`transmitted` and the modulus in updatePosition
+func statsFacts() {
+	const sf = "internal/io/fs/stats.go"
+	f := file(sf)
+	if f == nil {
+		return
+	}
+	var sizes []constant.Value
+	ast.Inspect(f, func(x ast.Node) bool {
+		if fld, ok := x.(*ast.Field); ok {
+			if at, ok := fld.Type.(*ast.ArrayType); ok && at.Len != nil {
+				for _, n := range fld.Names {
+					if n.Name == "matched" || n.Name == "transmitted" {
+						sizes = append(sizes, eval(at.Len, nil))
+					}
+				}
+			}
+		}
+		return true
+	})
+	if len(sizes) != 2 || sizes[0] == nil || sizes[1] == nil || sizes[0].ExactString() != sizes[1].ExactString() {
+		problem("stats ring arrays not found or of different length")
+		return
+	}
+	defNat("statsRingSize", sizes[0], sf+" matched/transmitted array length")
+	fn := findFunc(sf, "stats", "updatePosition")
+	var mod constant.Value
+	ast.Inspect(fn, func(x ast.Node) bool {
+		if be, ok := x.(*ast.BinaryExpr); ok && be.Op.String() == "%" {
+			mod = eval(be.Y, nil)
+		}
+		return true
+	})
+	defNat("statsRingModulus", mod, sf+" updatePosition modulus")
 }
